@@ -2,7 +2,7 @@
    manifest.d/C10.json): the reference semantics of the active instruction set is EVM.Model (tied to /repo/vm on every run
    by the correspondence harness); for the ALU an independent mathematical definition (Word.v, m_alu) is given and the
    interpreter's ALU (i_alu, transcribed from instructions.go + holiman/uint256) is proved equal to it on all operands. *)
-From Coq Require Import ZArith List Bool.
+From Coq Require Import ZArith List Bool Lia.
 From Verif Require Import EVM.Word EVM.ProofsALU EVM.Model EVM.ProofsRun EVM.GasSpec EVM.ProofsGas
   EVM.RefSpec EVM.ProofsRef EVM.Journal EVM.ProofsJournal.
 Import ListNotations.
@@ -99,6 +99,22 @@ Example gas_spec_nonvacuous :
   mem_gas (32 * 2) (to_words 100 * 32) = Some 6 /\ expansion_cost 2 4 = 6 /\
   call_gas 100000 700 50000 = 50000 /\ call_gas 100000 700 99999 = callee_gas 100000 700 99999 /\ callee_gas 100000 700 99999 = 97749.
 Proof. vm_compute. repeat split; reflexivity. Qed.
+
+(* a call instruction passes the gas check only if its own cost (everything except the gas handed to the callee) is affordable:
+   cost - callee gas >= 700 (+ stipend margin), cost <= gas available, callee gas >= 0 — this ties call_gas_unaffordable to pre *)
+Theorem call_step_affordable E cx s k s1 cg : inv s -> pre E cx s = P_ok (I_CALLI k) s1 cg ->
+  exists cost, s_gas s1 = s_gas s - cost /\ 0 <= cost <= s_gas s /\ 0 <= cg /\
+               700 + (if call_value k (s_stack s) =? 0 then 0 else 2300) <= cost - cg.
+Proof.
+  intros Hi Hp. destruct (pre_ok E cx s (I_CALLI k) s1 cg Hi Hp) as (_ & _ & cost & H1 & H2 & H3 & _ & H5).
+  exists cost. repeat split; try assumption; try lia. apply H5. reflexivity.
+Qed.
+
+(* the state every frame starts in satisfies the invariants used by frame_terminates_within_gas / run_refines_reference *)
+Theorem frame_entry_invariants gas w cc : 0 <= gas -> inv (mkSt 0 [] [] 0 gas [] w cc) /\ rinv (mkSt 0 [] [] 0 gas [] w cc).
+Proof.
+  intros H. split; [|apply initial_rinv; exact H]. unfold inv. cbn. repeat split; try lia. constructor.
+Qed.
 
 (* 6. an INDEPENDENT reference semantics (RefSpec.v, written from the Yellow Paper: delta/alpha, exceptional halting Z, jump
       destinations D(c) as inductively defined instruction positions, the fee schedule by W-classes + C_mem + the SSTORE
@@ -203,6 +219,20 @@ Proof.
   vm_compute. repeat split; reflexivity.
 Qed.
 
+(* alu_step_matches_math and frame_terminates_within_gas: their hypotheses hold in a concrete running frame *)
+Example alu_step_nonvacuous :
+  let s := mkSt 9 [W - 1; 2; 7] [] 0 50 [] (exW exF) 0 in
+  stack_ok (s_stack s) /\ inv s /\ s_gas s < Z.of_nat 60 /\
+  exec_plain exE (mkCtx 10 99 0 exF (zlen exF) [] false 1) (I_ALU A_ADD) s = next s [1; 7].
+Proof.
+  cbv zeta. cbn [s_stack s_gas s_msize].
+  assert (Hst : stack_ok [W - 1; 2; 7]).
+  { assert (iw : forall v, (0 <=? v) = true -> (v <? W) = true -> in_word v).
+    { intros v A B. split; [apply Z.leb_le, A|apply Z.ltb_lt, B]. }
+    constructor; [apply iw; reflexivity|]. constructor; [apply iw; reflexivity|]. constructor; [apply iw; reflexivity|constructor]. }
+  split; [exact Hst|]. split; [unfold inv; cbn; repeat split; [exact Hst|lia|lia]|]. split; [reflexivity|]. vm_compute. reflexivity.
+Qed.
+
 (* the journal mechanism on a concrete history: an outer failed frame containing a successful inner frame and a failed one *)
 Example journal_nonvacuous :
   let s := mkSdb [[(1, 10)]] [[(7, 70)]] in
@@ -239,6 +269,8 @@ Print Assumptions mem_cost_monotone.
 Print Assumptions expansion_cost_additive.
 Print Assumptions call_gas_matches_spec.
 Print Assumptions call_gas_unaffordable.
+Print Assumptions call_step_affordable.
+Print Assumptions frame_entry_invariants.
 Print Assumptions run_refines_reference.
 Print Assumptions jumpdest_analysis_matches_spec.
 Print Assumptions revert_to_snapshot_restores.
